@@ -32,9 +32,23 @@ def sh(cmd, timeout=600, cwd=None, env=None, input=None, check=False, text=True)
     if env:
         e.update(env)
     try:
-        p = subprocess.run(cmd, shell=shell, cwd=cwd, env=e, input=input,
-                           stdout=subprocess.PIPE, stderr=subprocess.PIPE,
-                           timeout=timeout, text=text, errors="replace" if text else None)
+        # a transient shortage of process slots / memory in the sandbox (fork: EAGAIN, ENOMEM) says nothing about the
+        # code under test: wait and try again; the same for `timeout` itself failing to start its command (exit 125)
+        for attempt in range(6):
+            try:
+                p = subprocess.run(cmd, shell=shell, cwd=cwd, env=e, input=input,
+                                   stdout=subprocess.PIPE, stderr=subprocess.PIPE,
+                                   timeout=timeout, text=text, errors="replace" if text else None)
+            except (BlockingIOError, MemoryError):
+                if attempt == 5:
+                    raise
+                time.sleep(2 + 3 * attempt)
+                continue
+            if (p.returncode == 125 and not shell and cmd and os.path.basename(str(cmd[0])) == "timeout"
+                    and attempt < 5):
+                time.sleep(2 + 3 * attempt)
+                continue
+            break
         rc, out, err = p.returncode, p.stdout, p.stderr
     except subprocess.TimeoutExpired as ex:
         rc = 124
